@@ -216,10 +216,18 @@ func phxRunScenario(trace *vhTrace, keys *vhKeys, sc vhScenario) {
 	trace.Emit(r.sc, "Reset", nil, nil)
 	trace.Emit(r.sc, "Init", exChainLine(chain, n0, qcap, up), nil)
 	initial := append([]*common.GuardianSet{}, chain.sets[:n0]...)
-	r.gs = guardiansets.NewGuardianSets(initial, chain.url, zap.NewNop(), time.Hour, eth_common.HexToAddress("0x0290FB167208Af455bB137780163b7B7a9a10C16"), ch)
-	r.cache = cache.New[bool](store.NewGoCache(gocache.New(5*time.Minute, 10*time.Minute)))
-	r.queue = make(chan *Message, qcap)
-	r.cons = NewVAAGossipConsumer(r.gs, deduplicator.New(r.cache, zap.NewNop()), r.queue, zap.NewNop())
+	var pv interface{}
+	func() {
+		defer func() { pv = recover() }()
+		r.gs = guardiansets.NewGuardianSets(initial, chain.url, zap.NewNop(), time.Hour, eth_common.HexToAddress("0x0290FB167208Af455bB137780163b7B7a9a10C16"), ch)
+		r.cache = cache.New[bool](store.NewGoCache(gocache.New(5*time.Minute, 10*time.Minute)))
+		r.queue = make(chan *Message, qcap)
+		r.cons = NewVAAGossipConsumer(r.gs, deduplicator.New(r.cache, zap.NewNop()), r.queue, zap.NewNop())
+	}()
+	if pv != nil {
+		trace.Emit(r.sc, "Panic", map[string]interface{}{"call": "NewGuardianSets", "value": fmt.Sprint(pv)}, nil)
+		return
+	}
 	for _, st := range sc.Steps {
 		switch st.Ev {
 		case "Grow":
